@@ -1,18 +1,61 @@
 /-
 Specification of the requirer clause of C04: "Loading the image with a restriction to required files changes nothing
 except that non-required files are absent."  Directories, and everything about the files that stay, are untouched.
-A file is needed when the requirer asks for it or when a required symlink leads to it within `depth` hops (the
-loader's documented rule for keeping link targets; `neededSet`).
+
+A path is *needed* when the requirer asks for it, or when a required symbolic link leads to it in at most `depth` hops
+(the loader's documented rule: the targets of required links are kept).  "Leads to" is the relation `Reach` below,
+stated on the tree alone; `withinB` is its executable test (`withinB_iff_Reach`, Proofs/OverlayRequired.lean).  Nothing
+here refers to the model of the loader (`chase`, `neededSet`, `pruneFinal`, Model/OverlayImage.lean).
 -/
-import Scalibr.Model.OverlayImage
+import Scalibr.Model.Overlay
 import Scalibr.Spec.Overlay
 namespace Scalibr.Overlay
 
+/-- `Reach t n d q`: following the link node `n` arrives at the path `q` after at least one and at most `d` hops, every
+hop landing on a node of `t` and every intermediate node being a link again -/
+inductive Reach (t : Tree) : Node → Nat → Path → Prop
+  /-- the target of `n` exists: it is reached with one hop -/
+  | here {n : Node} {m : Node} {d : Nat} : t.get n.target = some m → Reach t n (d+1) n.target
+  /-- the target of `n` is itself a link `m`: whatever `m` reaches in `d` hops, `n` reaches in `d+1` -/
+  | next {n : Node} {m : Node} {d : Nat} {q : Path} :
+      t.get n.target = some m → m.kind = .link → Reach t m d q → Reach t n (d+1) q
+
+/-- a link that counts: a required, non-whiteout symbolic link of the view -/
+def RequiredLink (t : Tree) (req : Path → Bool) (s : Path) (n : Node) : Prop :=
+  t.get s = some n ∧ n.kind = .link ∧ n.wh = false ∧ req s = true
+
+/-- **needed**: required, or reached from a required link (one of the paths `U`) within `depth` hops -/
+def Needed (U : List Path) (t : Tree) (req : Path → Bool) (depth : Nat) (q : Path) : Prop :=
+  req q = true ∨ ∃ s n, s ∈ U ∧ RequiredLink t req s n ∧ Reach t n depth q
+
+/-- the same without a universe: over every path of the tree -/
+def NeededAny (t : Tree) (req : Path → Bool) (depth : Nat) (q : Path) : Prop :=
+  req q = true ∨ ∃ s n, RequiredLink t req s n ∧ Reach t n depth q
+
+/-- what the clause asks of the restricted final view `r` of the unrestricted view `t`: a node of `r` is the node `t`
+has there, and a node of `t` is in `r` exactly when it is a directory, a whiteout record or needed -/
+def RequiredView (U : List Path) (req : Path → Bool) (depth : Nat) (t r : Tree) : Prop :=
+  ∀ q n, r.get q = some n ↔ (t.get q = some n ∧ (n.kind = .dir ∨ n.wh = true ∨ Needed U t req depth q))
+
+/-- executable test of `Reach` (a yes/no walk along the link; it lists nothing) -/
+def withinB (t : Tree) : Nat → Node → Path → Bool
+  | 0, _, _ => false
+  | d+1, n, q =>
+    match t.get n.target with
+    | none => false
+    | some m => n.target == q || (m.kind == .link && withinB t d m q)
+
+/-- executable test of `Needed` -/
+def neededB (U : List Path) (t : Tree) (req : Path → Bool) (depth : Nat) (q : Path) : Bool :=
+  req q || U.any fun s =>
+    match t.get s with
+    | some n => n.kind == .link && !n.wh && req s && withinB t depth n q
+    | none => false
+
 /-- the final view the property asks for: the unrestricted view minus the non-directories that are not needed -/
 def specRequired (U : List Path) (req : Path → Bool) (depth : Nat) (t : Tree) : Tree :=
-  let marked := neededSet U t req depth
   ⟨fun q => match t.get q with
-    | some n => if n.kind = .dir || n.wh || req q || marked.contains q then some n else none
+    | some n => if n.kind == .dir || n.wh || neededB U t req depth q then some n else none
     | none => none⟩
 
 end Scalibr.Overlay
